@@ -56,6 +56,13 @@ TIE (measured every run, numbers in evidence/C16.json)
        almost never put an identity-looking constant next to a non-integer subtree; the random stream now does
        so in ~14% of inner nodes as well.
 
+  chain_grid (after seeded C16-r3m1: simplify() rewriting floor(c*floor(x)) to floor(c*x)): nested rounding chains
+       outer((inner(x, a) * b), c) with inner/outer in // % ceil trunc, at a binding where the inner rounding matters.
+  usym_grid + "usym" leaves in the random stream (after seeded C16-r3m3: substitution map built by iterating the
+       bindings, so two distinct SymPy symbols of one name collapse): dimensions built from CALLER-SUPPLIED SymPy
+       expressions k*Symbol(name, <no / other assumptions>) + c mixed with text-built dimensions of the same names;
+       the model evaluates by NAME (lookup), which is what evaluate() documents.
+
 READINGS
   * expressions whose exact value does not exist under the binding are outside the statement;
   * a non-integer exact value must come back as the dimension whose text is that rational ("7/2"), or as a
@@ -314,6 +321,10 @@ def _sign(a):
 # build trees: what the USER applies to SymbolicDim objects.  JSON-able nested lists.
 #   ["sym", name] ["int", k] ["neg", a] ["floor"|"ceil"|"trunc"|"abs"|"sign"|"sqrt", a]
 #   ["add"|"sub"|"mul"|"div"|"floordiv"|"mod"|"max"|"min"|"pow", a, b]
+#   ["usym", name, tag, k, c]  a dimension built from a CALLER-SUPPLIED SymPy expression k*Symbol(name, **USYM[tag]) + c
+LEAVES = ("sym", "int", "usym")
+USYM = {"plain": {}, "integer": {"integer": True}, "positive": {"positive": True},
+        "nonneg": {"integer": True, "nonnegative": True}, "real": {"real": True}}
 UN = ("neg", "floor", "ceil", "trunc", "abs", "sign", "sqrt")
 BIN = ("add", "sub", "mul", "div", "floordiv", "mod", "max", "min", "pow")
 
@@ -323,6 +334,8 @@ def exact(t, b: dict) -> Fraction:
     k = t[0]
     if k == "sym":
         return Fraction(b[t[1]])
+    if k == "usym":
+        return Fraction(t[3] * b[t[1]] + t[4])
     if k == "int":
         return Fraction(t[1])
     if k in UN:
@@ -363,7 +376,7 @@ def exact(t, b: dict) -> Fraction:
 
 
 def syms_of(t) -> list[str]:
-    if t[0] == "sym":
+    if t[0] in ("sym", "usym"):
         return [t[1]]
     if t[0] == "int":
         return []
@@ -380,12 +393,12 @@ def has_sym(t) -> bool:
 
 
 def depth(t) -> int:
-    return 0 if t[0] in ("sym", "int") else 1 + max(depth(s) for s in t[1:])
+    return 0 if t[0] in LEAVES else 1 + max(depth(s) for s in t[1:])
 
 
 def ops_of(t, acc=None) -> set:
     acc = set() if acc is None else acc
-    if t[0] not in ("sym", "int"):
+    if t[0] not in LEAVES:
         acc.add(t[0])
         for s in t[1:]:
             ops_of(s, acc)
@@ -407,6 +420,8 @@ def to_model(t):
     k = t[0]
     if k == "sym":
         return m_sym(t[1])
+    if k == "usym":      # evaluation is by symbol NAME: whatever assumptions the caller's symbol carries
+        return m_bin("BAdd", m_bin("BMul", m_int(t[3]), m_sym(t[1])), m_int(t[4]))
     if k == "int":
         return m_int(t[1])
     if k == "neg":
@@ -741,7 +756,11 @@ HAND_STRINGS = [
 
 def gen_tree(rng, d: int, names: list[str], top: bool = True):
     if d <= 0 or (not top and rng.random() < 0.2):
-        if rng.random() < 0.68:
+        r0 = rng.random()
+        if r0 < 0.12:
+            # same NAMES as the text-built dims, but a distinct SymPy symbol (other assumptions)
+            return ["usym", rng.choice(names), rng.choice(sorted(USYM)), rng.choice([1, 1, 2, 3]), rng.choice([0, 0, 1, -1])]
+        if r0 < 0.70:
             return ["sym", rng.choice(names)]
         return ["int", rng.choice([0, 1, 1, 2, 2, 2, 3, 3, 4, 5, 7, 8, 16, -1, -2, -3, -8])]
     r = rng.random()
@@ -797,6 +816,70 @@ def neutral_grid() -> list[dict]:
     return out
 
 
+def _chain(kind: str, x, k: int):
+    return {"floordiv": ["floordiv", x, ["int", k]], "mod": ["mod", x, ["int", k]],
+            "ceil": ["ceil", ["div", x, ["int", k]]], "trunc": ["trunc", ["div", x, ["int", k]]]}[kind]
+
+
+def _unround(t):
+    """The tree with every rounding removed (to pick bindings where the inner rounding matters)."""
+    if t[0] in LEAVES:
+        return t
+    if t[0] in ("floor", "ceil", "trunc"):
+        return _unround(t[1])
+    if t[0] == "floordiv":
+        return ["div", _unround(t[1]), _unround(t[2])]
+    return [t[0]] + [_unround(x) for x in t[1:]]
+
+
+def chain_grid() -> list[dict]:
+    """Nested rounding chains  outer((inner(x, a) * b), c)  with inner, outer in // % ceil trunc over small
+    a, b, c, at a binding where the INNER rounding changes the result (floor(2*floor(N/2)/3) is 0 at N=3, but
+    floor(N/3) is 1): checked through evaluate, simplify, Shape.simplify and the re-parsed texts."""
+    out = []
+    xs = [["sym", "N"], ["sub", ["sym", "N"], ["sym", "M"]]]
+    for inner in ("floordiv", "mod", "ceil", "trunc"):
+        for outer in ("floordiv", "mod", "ceil", "trunc"):
+            for a in (2, 3):
+                for bb in (2, 3):
+                    for c in (3, 4, 5):
+                        if bb == c:
+                            continue
+                        x = xs[(a + bb + c) % 2]
+                        mid = ["mul", _chain(inner, x, a), ["int", bb]]
+                        t = _chain(outer, mid, c)
+                        flat = _chain(outer, ["mul", _unround(_chain(inner, x, a)) if inner != "mod" else x, ["int", bb]], c)
+                        pick = None
+                        for n in (3, 5, 7, 4, 9, 11, 8):
+                            b = {"N": n, "M": 1} if x[0] == "sub" else {"N": n}
+                            try:
+                                if exact(t, b) != exact(flat, b):
+                                    pick = b
+                                    break
+                            except Undefined:
+                                continue
+                        out.append({"tree": t, "bindings": pick or ({"N": 3, "M": 1} if x[0] == "sub" else {"N": 3}),
+                                    "partial": {}})
+    return out
+
+
+def usym_grid() -> list[dict]:
+    """Dimensions built from caller-supplied SymPy expressions (Symbol('N') without / with other assumptions)
+    combined with text-built dimensions of the SAME names: binding the name must resolve every such symbol."""
+    out = []
+    for tag in sorted(USYM):
+        u = ["usym", "N", tag, 2, 1]
+        u1 = ["usym", "N", tag, 1, 0]
+        n, m = ["sym", "N"], ["sym", "M"]
+        for t in (["sub", ["mul", u, m], n], ["add", ["floordiv", u1, ["int", 2]], ["mod", n, ["int", 3]]],
+                  ["sub", ["mul", n, ["int", 3]], u1], ["floordiv", ["add", u, n], m], ["max", u1, ["add", n, ["int", 1]]],
+                  ["mul", ["usym", "M", tag, 1, 0], ["sub", n, u1]], u):
+            for b, part in (({"N": 4, "M": 3}, {}), ({"N": 7, "M": 5}, {"M": 5}), ({"N": 7, "M": 5}, {"N": 7})):
+                bb = {k_: v for k_, v in b.items() if k_ in syms_of(t)}
+                out.append({"tree": t, "bindings": bb, "partial": {k_: v for k_, v in part.items() if k_ in bb}})
+    return out
+
+
 def gen_case(rng, thorough: bool):
     names = rng.sample(NAMES, rng.choice([1, 2, 2, 3]))
     for _ in range(50):
@@ -822,6 +905,9 @@ def build(t):
     k = t[0]
     if k == "sym":
         return ir.SymbolicDim(t[1])
+    if k == "usym":
+        import sympy
+        return ir.SymbolicDim(t[3] * sympy.Symbol(t[1], **USYM[t[2]]) + t[4])
     if k == "int":
         return t[1]
 
@@ -1269,7 +1355,7 @@ def replay_known(ck) -> None:
 
 def _subtrees(t, path=()):
     yield path, t
-    if t[0] not in ("sym", "int"):
+    if t[0] not in LEAVES:
         for i, s in enumerate(t[1:], 1):
             yield from _subtrees(s, path + (i,))
 
@@ -1298,7 +1384,7 @@ def shrink_tree(ck, case: dict, fails) -> dict:
             cands = []
             if path:
                 cands.append(_replace(cur["tree"], (), sub))          # hoist the subtree to the root
-            if sub[0] not in ("sym", "int"):
+            if sub[0] not in LEAVES:
                 cands += [_replace(cur["tree"], path, s) for s in sub[1:]]
                 cands += [_replace(cur["tree"], path, ["sym", next(iter(cur["bindings"]))]),
                           _replace(cur["tree"], path, ["int", 2])]
@@ -1515,6 +1601,9 @@ def check_trees(ck, cases: list[dict], report) -> None:
         for o in ops_of(case["tree"]):
             ck.hist("tree_operators", o)
         ck.hist("tree_depth", str(depth(case["tree"])))
+        for _, sub_ in _subtrees(case["tree"]):
+            if sub_[0] == "usym":
+                ck.hist("caller_supplied_symbol_assumptions", sub_[2])
         ck.hist("binding", "partial" if case["partial"] and len(case["partial"]) < len(case["bindings"])
                 else ("complete-first" if case["partial"] else "empty-first"))
         try:
@@ -1610,6 +1699,10 @@ def run(ck) -> None:
     grid = neutral_grid()
     ck.coverage["neutral_constant_grid_cases"] = len(grid)
     t_cases += grid
+    cg, ug = chain_grid(), usym_grid()
+    ck.coverage["rounding_chain_grid_cases"] = len(cg)
+    ck.coverage["caller_sympy_symbol_grid_cases"] = len(ug)
+    t_cases += cg + ug
     t_cases += [gen_case(rng, ck.thorough) for _ in range(n_tree)]
     check_strings(ck, s_items, report_string)
     check_trees(ck, t_cases, report_tree)
@@ -1760,7 +1853,7 @@ def minimal_failing(case: dict, with_simplify: bool) -> list[tuple[list, dict, l
     out = []
 
     def rec(t) -> bool:
-        if t[0] in ("sym", "int"):
+        if t[0] in LEAVES:
             return False
         sub = [rec(s) for s in t[1:]]
         if any(sub):
